@@ -1,13 +1,19 @@
 //! Verification harness: runs the plonky2 implementation on generated cases and writes
 //! line-oriented case files for the Coq model (extracted OCaml / in-Coq vm_compute) to replay.
 mod c01;
+mod c03;
 mod c14;
+mod c16;
 mod c18;
 mod corpus;
 mod dsl;
 mod rng;
 
 use std::io::{BufWriter, Write};
+
+pub fn dsl_f_one() -> plonky2::field::goldilocks_field::GoldilocksField {
+    <plonky2::field::goldilocks_field::GoldilocksField as plonky2::field::types::Field>::ONE
+}
 
 fn main() {
     let args: Vec<String> = std::env::args().collect();
@@ -34,6 +40,8 @@ fn main() {
         "c14" => c14::run(seed, tier, &mut w),
         "c01" => c01::run(seed, tier, &mut w),
         "c18" => c18::run(seed, tier, &mut w),
+        "c03" => c03::run(seed, tier, &mut w),
+        "c16" => c16::run(seed, tier, &mut w),
         _ => {
             eprintln!("unknown property {}", prop);
             std::process::exit(2);
